@@ -57,9 +57,22 @@ fn adv_hash(h: &[u8; 32], code: u16) -> [u8; 32] {
         0 => {}
         1 => o[0] ^= 0x80,
         2 => o[31] ^= 0x01,
-        _ => o = [0; 32],
+        3 => o = [0; 32],
+        // 100 + i: flip bit i
+        c => {
+            let i = (c - 100) as usize;
+            o[i / 8] ^= 0x80 >> (i % 8);
+        }
     }
     o
+}
+
+fn hash_adv_name(c: u16) -> &'static str {
+    if c >= 100 {
+        "single-bit-flip"
+    } else {
+        HASH_ADV[c as usize]
+    }
 }
 
 fn id_bytes(id: &Option<String>) -> Vec<u8> {
@@ -182,7 +195,7 @@ pub fn eval(ctx: &Ctx, case: &Case) {
     let r3 = guard(|| alice.exchange_3(&rb_del, sb_del));
     ctx.call();
     let must_fail = ra_tampered || rb_tampered || sb_tampered;
-    let what = format!("R_A={}/R_B={}/S_B={}", POINT_ADV[adv[0] as usize], POINT_ADV[adv[1] as usize], HASH_ADV[adv[2] as usize]);
+    let what = format!("R_A={}/R_B={}/S_B={}", POINT_ADV[adv[0] as usize], POINT_ADV[adv[1] as usize], hash_adv_name(adv[2]));
     let sa = match r3 {
         Guard::Panic(p) => {
             ctx.violation("Exchange::exchange_3", &format!("panic/{}/{}/{}", panic_site(&p), what, tag), p, cj());
@@ -229,7 +242,7 @@ pub fn eval(ctx: &Ctx, case: &Case) {
     let r4 = guard(|| bob.exchange_4(sa_del, &ra2_del));
     ctx.call();
     let must_fail = sa_del != sa || ra2_tampered;
-    let what = format!("S_A={}/R_A'={}", HASH_ADV[adv[3] as usize], POINT_ADV[adv[4] as usize]);
+    let what = format!("S_A={}/R_A'={}", hash_adv_name(adv[3]), POINT_ADV[adv[4] as usize]);
     match r4 {
         Guard::Panic(p) => ctx.violation("Exchange::exchange_4", &format!("panic/{}/{}/{}", panic_site(&p), what, tag), p, cj()),
         Guard::Done(Ok(true)) if must_fail => ctx.violation("Exchange::exchange_4", &format!("tampering-accepted/{}/{}", what, tag), String::new(), cj()),
@@ -272,7 +285,7 @@ fn next_choices(adv: &[u16]) -> Vec<u16> {
 pub fn run(ctx: &Arc<Ctx>) {
     refmodels::selftest::run(&["sm3", "sm2"]).unwrap_or_else(|e| ctx.machinery_error(format!("reference self-test failed: {}", e)));
     let n = sm2::params().n.clone();
-    ctx.set_rule("stateright BFS over all man-in-the-middle choice sequences on the real Exchange objects: R_A->B, R_B->A in {pass, re-randomised Jacobian representation, -R, 2R, G, off-curve}, S_B->A, S_A->B in {pass, first bit flipped, last bit flipped, all-zero}, R_A handed to exchange_4 in the 6 point choices; every subset of the messages altered x every kind, per configuration (key pairs {Annex, (1,n-2), (n-2,2), seeded} x IDs x klen). Honest paths additionally for every klen 1..=200 and the nonce product r_A x r_B. Invariant: honest deliveries (incl. re-randomised) give both sides the reference K (w=127), S_B, S_A (one-byte tags) and exchange_4 = true; any altered message makes the receiving step fail; off-curve points are refused by the step that receives them; a panic is a violation. ephemeral scalars fixed through the RNG seam.");
+    ctx.set_rule("stateright BFS over all man-in-the-middle choice sequences on the real Exchange objects: R_A->B, R_B->A in {pass, re-randomised Jacobian representation, -R, 2R, G, off-curve}, S_B->A, S_A->B in {pass, first bit flipped, last bit flipped, all-zero}, R_A handed to exchange_4 in the 6 point choices; every subset of the messages altered x every kind, per configuration (key pairs {Annex, (1,n-2), (n-2,2), seeded} x IDs x klen). Honest paths additionally for every klen 1..=200 and the nonce product r_A x r_B; every single-bit flip of S_B and of S_A on otherwise honest runs. Invariant: honest deliveries (incl. re-randomised) give both sides the reference K (w=127), S_B, S_A (one-byte tags) and exchange_4 = true; any altered message makes the receiving step fail; off-curve points are refused by the step that receives them; a panic is a violation. ephemeral scalars fixed through the RNG seam.");
     let mut g = SplitMix::new(ctx.seed, "c15");
     let annex = ("81EB26E941BB5AF16DF116495F90695272AE2CD63D6C4AE1678418BE48230029", "785129917D45A9EA5437A59356B82338EAADDA6CEB199088F14AE10DEFA229B5", "D4DE15474DB74D06491C440D305E012400990F3E390C7E87153C12DB2EA60BB3", "7E07124814B309489125EAED101113164EBF0F3458C5BD88335C1F9D596243D6");
     let seeded: Vec<BigUint> = (0..4).map(|_| g.nonzero_below(&(&n - 2u32))).collect();
@@ -315,6 +328,13 @@ pub fn run(ctx: &Arc<Ctx>) {
         for (bn, b) in &ks {
             let (da, db, _, _, ida, idb) = &keypairs[0];
             cases.push(Case { cfg: Config { da: da.clone(), db: db.clone(), ida: ida.clone(), idb: idb.clone(), klen: 16, ra: hexbig(a), rb: hexbig(b) }, adv: vec![0, 0, 0, 0, 0], tag: { let _ = (an, bn); "honest/nonce-product".to_string() } });
+        }
+    }
+    // every single-bit flip of S_B (A must refuse) and of S_A (B must not confirm) on otherwise honest runs
+    for ci in 0..2usize.min(cfgs.len()) {
+        for bit in 0..256u16 {
+            cases.push(Case { cfg: cfgs[ci * klens.len()].clone(), adv: vec![0, 0, 100 + bit], tag: "bitflip-sweep".into() });
+            cases.push(Case { cfg: cfgs[ci * klens.len()].clone(), adv: vec![0, 1, 0, 100 + bit, 0], tag: "bitflip-sweep".into() });
         }
     }
     ctx.sample(serde_json::to_value(&cases[15]).unwrap());
